@@ -178,6 +178,23 @@ def build_harness(name, cfg, harness_srcs, repo_files=None, san="asan", extra=()
     if not os.path.exists(exe):
         tmp = exe + ".%d.tmp" % os.getpid()
         rc, out = sh([cc] + flags + ["-I" + HARNESS] + hs + objs + ["-o", tmp, "-lpthread", "-ldl", "-lrt", "-lm"] + list(link))
+        if rc != 0 and "undefined reference" in out and set(repo_files) != set(cfg["sources"]):
+            # the files this harness isolates now call into other parts of the library (a rewrite may do that and
+            # still be right): offer the rest of the library as an archive, from which only what is needed is taken
+            rest = [f for f in cfg["sources"] if f not in repo_files]
+            clang = cc.startswith("clang")
+            rextra = list(extra) + (["-include", os.path.join(HARNESS, "uthread_clang_atomics.h")] if clang else [])
+            robjs = build_objs(cfg, rest, san, extra=rextra, tag=tag, cc=cc, opt=opt)
+            if clang:
+                hs = hs + [os.path.join(HARNESS, "clang_atomics_impl.c")]
+            lib = os.path.join(d, "librest.%d.a" % os.getpid())
+            rc2, out2 = sh(["ar", "rcs", lib] + robjs)
+            if rc2 == 0:
+                rc, out = sh([cc] + flags + ["-I" + HARNESS] + hs + objs + [lib, "-o", tmp, "-lpthread", "-ldl", "-lrt", "-lm"] + list(link))
+            try:
+                os.unlink(lib)
+            except OSError:
+                pass
         if rc != 0:
             raise BuildError("linking harness %s failed:\n%s" % (name, out[-3000:]))
         os.replace(tmp, exe)
